@@ -15,7 +15,7 @@ EXPLANATION = (
     "DifficultyValues::calculate(difficulty parameter, converted map) — the same call as in difficulty(). R3: strains() "
     "sees the same preprocessed map as difficulty() (sibling rule). R4 (recorded): which difficulty_value each skill "
     "resolves to. R5: strains() and difficulty() reach the same set of Difficulty::get_* settings. R6: within a mode all StrainSkill::process bodies are "
-    "the same code (resolved callees / constants / shape), so every skill opens and closes sections at the same boundaries. Finiteness / non-negativity of peaks and run-length re-expansion are NOT decided.")
+    "the same code (resolved callees / constants / shape), so every skill opens and closes sections at the same boundaries. R7: in every process body the section operations (peak saved, section opened, section end advanced, zeros pushed) are control-dependent on the difficulty objects, constants and the section-end accumulator only — never on the skill's own strain state, which differs between the skills of a mode (non-interference: same objects => same number of sections). Finiteness / non-negativity of peaks and run-length re-expansion are NOT decided.")
 
 TRAIT = 'any::difficulty::skills::StrainSkill'
 
@@ -259,6 +259,7 @@ def run(ctx):
     C07.r2_r4(ctx, F, r2=None, r4='C16-R3', methods=['difficulty', 'strains'])
     r4(ctx, F)
     r6_same_sectioning(ctx, F)
+    r7_sections_by_time_only(ctx, F)
     # ---- R5: strains() and difficulty() consult the same Difficulty settings
     import entries
     for mode in MODES:
@@ -318,3 +319,101 @@ def r6_same_sectioning(ctx, F):
                     'section loop calls save_current_peak + start_new_section_from', ref_f.where(),
                     bad='%s::process no longer saves the peak / starts a new section at section boundaries' % ref_f.self_adt.split('::')[-1])
     ctx.floor('C16-R6', n, 9, 'process bodies compared')
+
+
+# ---- R7: how many sections a skill opens is decided by time alone
+def _root_param(v):
+    for _ in range(60):
+        if v[0] in ('field', 'variant', 'index', 'mut', 'update', 'cast', 'unop') and len(v) > 1 and isinstance(v[1], tuple):
+            v = v[1] if v[0] != 'cast' else v[2]
+            continue
+        if v[0] == 'cast':
+            v = v[2]
+            continue
+        break
+    return v[1] if v[0] == 'param' else None
+
+
+def skill_data_leaves(v, end_field, _seen=None, _d=0):
+    """what a condition depends on besides the difficulty objects, constants and the section-end accumulator: fields of the skill (self) other
+    than `end_field`, and calls that receive the skill"""
+    if _seen is None:
+        _seen = set()
+    out = set()
+    if id(v) in _seen or _d > 80:
+        return out
+    _seen.add(id(v))
+    k = v[0]
+    if k == 'field':
+        rp = _root_param(v)
+        if rp == 1:
+            # the outermost field name along the chain from self
+            names = []
+            x = v
+            while x[0] in ('field', 'variant', 'index', 'mut', 'update'):
+                if x[0] == 'field':
+                    names.append(x[2])
+                x = x[1]
+            if names and names[-1] != end_field:
+                out.add('self.' + str(names[-1]))
+            # the value may have been replaced by a call taking &mut self: look inside `mut` wrappers
+            x = v
+            while x[0] in ('field', 'variant', 'index'):
+                x = x[1]
+            if x[0] in ('mut', 'update'):
+                out |= skill_data_leaves(x[1], end_field, _seen, _d + 1)
+            return out
+        if rp in (2, 3):
+            return out
+    if k == 'param':
+        if v[1] == 1:
+            out.add('self')
+        return out
+    if k == 'call':
+        for a in v[2]:
+            if _root_param(a) == 1 and a[0] in ('param', 'mut', 'update'):
+                out.add('%s(self, ..)' % (v[1].get('name') or '?'))
+            else:
+                out |= skill_data_leaves(a, end_field, _seen, _d + 1)
+        return out
+    if k == 'mut':
+        return skill_data_leaves(v[1], end_field, _seen, _d + 1)
+    for x in prov.children(v):
+        out |= skill_data_leaves(x, end_field, _seen, _d + 1)
+    return out
+
+
+def r7_sections_by_time_only(ctx, F):
+    import inline
+    n = 0
+    for f0 in F.fns:
+        if not (f0.impl_trait == TRAIT and f0.name == 'process' and mode_of(f0.self_adt or '')):
+            continue
+        f = inline.inlined(F, f0)
+        step, _, _, place = section_step(f)
+        if place is None:
+            continue                   # reported by R1
+        end_field = place.split('.')[-1].rstrip(')')
+        P = prov.prov_of(f)
+        effects = []
+        for bi, t in f.calls():
+            nm = t['func'].get('name') or ''
+            if nm in ('save_current_peak', 'start_new_section_from') or (nm.startswith(('push', 'extend', 'resize')) and (t['func'].get('impl_adt') or '').endswith('StrainsVec')):
+                effects.append((bi, nm, t.get('ln')))
+        for bi, si, s in f.assigns():
+            fl_ = [e.get('f') for e in s['p'].get('proj', []) if isinstance(e, dict) and 'f' in e]
+            if s['p']['l'] == 1 and fl_ and fl_[-1] == end_field:
+                effects.append((bi, 'write of ' + end_field, s.get('ln')))
+        skill = f0.self_adt.split('::')[-1]
+        bad = {}
+        for bi, what, ln in effects:
+            for c, lab in arms.bool_facts(f, bi):
+                leaves = skill_data_leaves(c, end_field)
+                if leaves:
+                    bad.setdefault((what, ln), set()).update(leaves)
+        n += 1
+        ctx.require(not bad, 'C16-R7', '%s:%s' % (mode_of(f0.self_adt), skill),
+                    '%s::process: the %d section operations (peak saved / section opened / section end advanced) are conditioned on object times and the section end only' % (skill, len(effects)), f0.where(),
+                    bad='%s::process: %s — how many sections are recorded now depends on the strain state of the skill itself, so two skills of the mode fed the same objects can report '
+                        'different numbers of sections (their peaks no longer line up)' % (skill, '; '.join('`%s` (line %s) is conditioned on %s' % (w, ln, sorted(lv)) for (w, ln), lv in sorted(bad.items(), key=str))))
+    ctx.floor('C16-R7', n, 9, 'StrainSkill::process implementations')
